@@ -251,8 +251,10 @@ func countSnapshots(dir string) int {
 }
 
 // Diff describes the first difference between two states ("" = equal).
-// leadership is only compared when withLeader is set.
-func (a *State) Diff(b *State, withLeader bool) string {
+// Leadership and the number of snapshots are only compared when asked for
+// (an authorised backup may snapshot; an election may happen for reasons
+// unrelated to the request under test).
+func (a *State) Diff(b *State, withLeader, withSnaps bool) string {
 	for i := range a.Dumps {
 		if i >= len(b.Dumps) {
 			break
@@ -263,7 +265,7 @@ func (a *State) Diff(b *State, withLeader bool) string {
 		if a.Config[i] != b.Config[i] {
 			return fmt.Sprintf("cluster configuration seen by node %d changed: %q -> %q", i+1, a.Config[i], b.Config[i])
 		}
-		if a.Snaps[i] != b.Snaps[i] {
+		if withSnaps && a.Snaps[i] != b.Snaps[i] {
 			return fmt.Sprintf("number of snapshots of node %d changed: %d -> %d", i+1, a.Snaps[i], b.Snaps[i])
 		}
 	}
